@@ -13,7 +13,7 @@ from sklearn.base import clone
 PROPERTY = "C02"
 LEVEL = "fault_enumeration"
 RULE = ("history:<class>: for every fit-able registry class Hypothesis draws a configuration, a good data set and a history of calls - "
-        "fit(good), fit(bad_i) and output calls in any order - where bad_i ranges over the failures the harness can provoke through inputs: "
+        "fit(good), fit(bad_i) and output calls (every prediction method on four memory layouts of the batch, and score with no / float64 / int64 / list sample_weight) in any order - where bad_i ranges over the failures the harness can provoke through inputs: "
         "NaN in X, len(y) != len(X), a single row (fewer samples than clusters / classes), a short sample_weight, 1-D X, empty X - and over unusual but plausible inputs that a class may accept or refuse (y as a column, Fortran-ordered / float32 / read-only X, integer weights). Before "
         "every call the structural image of get_params(deep=True) and the bytes of X, y, sample_weight are recorded; after the call, "
         "whether it returned or raised, both must be unchanged; fit must return the estimator; after the history a final fit(good) must "
@@ -136,6 +136,32 @@ def _outputs(entry, est, Z, facts):
             require(_snap(Zv) == sz, "predict:writes-into-input", "%s modified its input (%s batch)" % (m, vname), dict(facts, method=m, layout=vname))
 
 
+def _scores(entry, est, X, y, w, facts):
+    """score(X, y[, sample_weight]) with the weights as a float64 array, an integer array and a list: it may refuse, it may not write"""
+    if entry.kind not in ("reg", "clf", "cluster") or not R._has_method(est, "score"):
+        return 0
+    if getattr(est, "balanced_predictions", False):
+        return 0          # ConstraintKMeans.score with balanced predictions is outside every listed property (see BUILDLOG)
+    n = len(X)
+    base = w if w is not None else (np.arange(1, n + 1, dtype=np.float64) / 4.0)
+    before = R.params_image(est)
+    done = 0
+    for wname, wv in (("none", None), ("float64", np.array(base, dtype=np.float64)), ("int64", np.arange(1, n + 1, dtype=np.int64)),
+                      ("list", [float(v) for v in base])):
+        sx, sy, sw = _snap(X), _snap(y), _snap(wv)
+        try:
+            args = (X,) if entry.kind == "cluster" else (X, y)
+            est.score(*args) if wv is None else est.score(*args, sample_weight=wv)
+            done += 1
+        except Exception:  # noqa: BLE001 - a refused call: the invariants are checked all the same
+            pass
+        f2 = dict(facts, method="score", weights=wname)
+        require(R.params_image(est) == before, "predict:changes-params", "score changed get_params", f2)
+        require(_snap(X) == sx and _snap(y) == sy, "predict:writes-into-input", "score modified X or y", f2)
+        require(_snap(wv) == sw, "score:writes-into-sample_weight", "score modified the caller's sample_weight (%s)" % wname, f2)
+    return done
+
+
 def check_history(case):
     name = case["cls"]
     entry = R.ENTRIES[name]
@@ -147,6 +173,7 @@ def check_history(case):
     fail_then_ok = False
     last_failed = False
     kinds = set()
+    n_score = 0
     for op in case["ops"]:
         X, y, w = R.materialize(data)
         if op[0] == "fit":
@@ -176,6 +203,7 @@ def check_history(case):
             except Exception:  # noqa: BLE001
                 continue
             _outputs(entry, est, Z, facts)
+            n_score += _scores(entry, est, X, y, w, facts)
     # a later successful fit gives the same model as fitting a fresh clone
     X, y, w = R.materialize(data)
     np.random.seed(case["seed"])
@@ -195,7 +223,7 @@ def check_history(case):
     d = R.same_fingerprint(fa, fb, exact=entry.exact)
     require(d is None, "history:differs-from-fresh-clone" + (":after-failure" if n_fail else ""),
             "after the history (%d failed fits: %s) a successful fit differs from a fresh clone's: %s" % (n_fail, sorted(kinds), d), dict(facts, failures=n_fail))
-    return Outcome([name, "failed-fits=%d" % min(n_fail, 3)] + ["bad:" + k for k in sorted(kinds)], fail_then_ok or n_fail > 0)
+    return Outcome([name, "failed-fits=%d" % min(n_fail, 3), "score-calls" if n_score else "no-score-call"] + ["bad:" + k for k in sorted(kinds)], fail_then_ok or n_fail > 0)
 
 
 def _is_fitted(entry, est, data, X, y):
